@@ -8,6 +8,10 @@ Decided (structure that is necessary for the behaviour; not the wall-clock guara
      fewer than `max` log entries younger than now - period (`>=` denies), the log is pruned with the longest period.
   R3 one limiter per endpoint: certificate tasks share `Arc` clones of one `RwLock<Endpoint>`; `Endpoint`/`RateLimit`
      values are deep-cloned only while the event loop is being built.
+  Evaluation-first (props/rate_model.py): R2a/R2b/R2c are decided by interpreting `RateLimit::new` on several configured limit
+  lists and `block_until_allowed` on concrete logs (clock = integers): admitted iff every window has fewer entries than its number,
+  entries kept iff still inside the LONGEST window, exactly one entry logged with the clock read after the wait; zero numbers are
+  refused. The structural forms of R2 run only when the interpreter cannot evaluate the limiter.
 """
 from ..flow import origins, arg_origins
 from ..mir import CallSite, op_local, strip_generics
@@ -16,13 +20,15 @@ from ..util import (assigns_const_to, bool_edges, call_true_false_edges, polls, 
 
 LEVEL = "other"
 TECHNIQUE = ("who-may-call over resolved callees + must-pass-through (dominance on the CFG minus the limiter await) + "
-             "admission-structure rules on the limiter's MIR (comparison operator/operand provenance, log-push placement)")
+             "admission-structure rules on the limiter's MIR (comparison operator/operand provenance, log-push placement)"
+             '; abstract interpretation of RateLimit::new / block_until_allowed on sample limit lists and logs (admission, pruning, logging tables)')
 LEVEL_TEXT = ("Decides, for all paths and call sites at once, that every HTTP transmission is admitted by the endpoint's own "
               "limiter and that the limiter's admission test has the sliding-window shape the property needs; these are "
               "necessary conditions of the behaviour (breaking any one lets some schedule exceed a limit). The wall-clock "
               "guarantee at the server is not decided.")
 LEVEL_NOTE = ("Not decided: observed request timing (send latency, clock behaviour), liveness timing. Trusted: rustc MIR, "
-              "the extractor, tokio::time::sleep, Instant monotonicity.")
+              "the extractor, tokio::time::sleep, Instant monotonicity."
+              ' R2 by evaluation is (sample-based: evaluation on the listed sample family is not a proof for all inputs; the structural rule is the fallback when the interpreter cannot run the code)')
 
 SEND = ("reqwest::async_impl::request::RequestBuilder::send", "reqwest::async_impl::client::Client::execute",
         "reqwest::blocking::request::RequestBuilder::send", "reqwest::blocking::client::Client::execute")
